@@ -305,7 +305,16 @@ def _impl_history(case):
             if k == "set":
                 p = _path(op["n"])
                 p.parent.mkdir(parents=True, exist_ok=True)
-                p.write_text(str(op["c"])); EI.stamp(p)
+                if op.get("link"):
+                    # the node is a symbolic link into a store; the edit rewrites the target, the link stays as it is
+                    target = root / "store" / (p.name + ".real")
+                    target.parent.mkdir(exist_ok=True)
+                    target.write_text(str(op["c"])); EI.stamp(target)
+                    if not p.is_symlink():
+                        p.unlink(missing_ok=True)
+                        p.symlink_to(target)
+                else:
+                    p.write_text(str(op["c"])); EI.stamp(p)
             elif k == "del":
                 _path(op["n"]).unlink(missing_ok=True)
             elif k == "touch":
